@@ -83,23 +83,26 @@ void h_bitset192(void) {
 #ifndef MAXC
 #define MAXC 3
 #endif
-alignas(16) static unsigned char csmem[sizeof(CspSolver)];
+// typed storage whose constructors are not run (byte arrays reinterpreted as structs make CBMC fall back to byte-level encodings)
+union SolverBox { CspSolver cs; SolverBox() {} ~SolverBox() {} };
+static SolverBox solverBox;
+union ConBox { CspSolver::Constraint c[MAXC]; ConBox() {} ~ConBox() {} };
+static ConBox conBox;
 static Dom domArr[MAXV];
 static CspSolver::PrefVal prefArr[MAXV];
-alignas(8) static unsigned char conArr[MAXC * sizeof(CspSolver::Constraint)];
 static CSet v2cArr[MAXV];
 static int valArr[MAXV];
 
 static CspSolver& mkSolver(int nVars, int nConstr) {
-    CspSolver& cs = *reinterpret_cast<CspSolver*>(csmem);
+    CspSolver& cs = solverBox.cs;
     pointVec(cs.domain, domArr, nVars, MAXV);
     pointVec(cs.prefVal, prefArr, nVars, MAXV);
-    pointVec(cs.constr, reinterpret_cast<CspSolver::Constraint*>(conArr), nConstr, MAXC);
+    pointVec(cs.constr, conBox.c, nConstr, MAXC);
     pointVec(cs.varToConstr, v2cArr, nVars, MAXV);
     cs.nodes = 0; cs.silent = true;
     return cs;
 }
-static void setConstr(int i, int v1, int v2, int c) { new (conArr + i * sizeof(CspSolver::Constraint)) CspSolver::Constraint(v1, v2, c); }
+static void setConstr(int i, int v1, int v2, int c) { new (&conBox.c[i]) CspSolver::Constraint(v1, v2, c); }
 
 // ---- O2: one constraint => makeArcConsistent performs revisions of that single arc; it must be sound
 //      (no value that takes part in a solution of the arc is removed) and exact when it answers "no".
@@ -146,8 +149,12 @@ static std::vector<int>& valuesVec() {
     return v;
 }
 void h_solve(void) {
+#ifdef DIRECT
+    int nVars = MAXV, nConstr = MAXC;        // exact sizes (smaller systems = smaller configurations): keeps the recursion depth static
+#else
     int nVars = nondet_int(), nConstr = nondet_int();
     ASSUME(nVars >= 1 && nVars <= MAXV && nConstr >= 0 && nConstr <= MAXC);
+#endif
     CspSolver& cs = mkSolver(nVars, nConstr);
     int base = nondet_int(); ASSUME(base >= -16 && base + WIDTH - 1 <= 47);
     U64 D[MAXV]; int cv1[MAXC], cv2[MAXC], cc[MAXC];
@@ -171,7 +178,11 @@ void h_solve(void) {
     for (int i = 0; i < MAXV; i++) { valArr[i] = -1; v2cArr[i].clear(); }
     for (int k = 0; k < MAXC; k++) if (k < nConstr) { v2cArr[cv1[k]].setBit(k); v2cArr[cv2[k]].setBit(k); }
     cs.nodes = 0;
+#ifdef SEARCHONLY
+    bool res = cs.solveRecursive(0, values);                                // real: the backtracking search alone is already exact
+#else
     bool res = cs.makeArcConsistent() && cs.solveRecursive(0, values);      // real, real
+#endif
 #else
     bool res = cs.solve(values);                         // real
 #endif
